@@ -9,7 +9,7 @@ def proj(kind, d):
 
 
 def cases(tier, rng):
-    for _ in range(400 if tier == "quick" else 5000):
+    for _ in range(400 if tier == "quick" else 30000):
         yield dstprops.c06_case(rng)
 
 
